@@ -1,5 +1,7 @@
 import PwVerif.Proofs.Macro
 import PwVerif.Proofs.BridgeC09C01
+import PwVerif.Proofs.Preview
+import PwVerif.Proofs.BridgeC09C04
 /-!
 # C09 — A macro behaves exactly like its sub-graph, behind synchronized by-value IO
 
@@ -151,6 +153,21 @@ example : BridgeC09C01.Wired exLevelF.toDag (kept exLevelBody [.out 1 0]) exLeve
       | zero => decide
       | succ i => simp [Exec.FinDag.toDag, exLevelF]
 
+/-- a run with a macro input that holds no data is refused by the macro's own readiness gate before any
+child runs (the step the driver takes leaves the state as it is, so every invariant survives trivially);
+conversely a run that is not refused at the gate and meets the hypotheses of `C09_inline` succeeds -/
+theorem C09_refused_run (n : Node) (σ : St) :
+    (refused n σ = true ↔ ∃ i, i < n.arity ∧ σ.get .inp i = .nd) ∧ (refused n σ = true → run n σ = none) :=
+  ⟨refused_iff n σ, run_refused n σ⟩
+
+/-- the hint codes `1 ⊑ 2 ⊑ 3` of the model, mapped to `str | tuple`, `str | tuple | int`, `object` in C04's
+hint grammar: C04's transcription `ms` of `type_hint_is_as_or_more_specific_than` (current and repaired
+configuration) answers exactly the model's `≤` on them — the model's parameter is C04's comparison -/
+theorem C09_hint_chain_is_C04 : ∀ a ∈ [1, 2, 3], ∀ b ∈ [1, 2, 3],
+    Hint.ms Hint.Cfg.now 10 (.h (BridgeC09C04.hintOf a)) (.h (BridgeC09C04.hintOf b)) = some (!hintClash a b) ∧
+    Hint.ms Hint.Cfg.repaired 10 (.h (BridgeC09C04.hintOf a)) (.h (BridgeC09C04.hintOf b)) = some (!hintClash a b) :=
+  BridgeC09C04.clash_is_C04
+
 /-! ## (b) by-value synchronisation -/
 
 /-- after construction, after every assignment to a macro input, after every run and after every
@@ -166,6 +183,13 @@ theorem C09_child_output_sync (n : Node) (σ : St) (p : Path) (o : Nat) (v : Val
     (h : Reach n σ) (hleaf : ∃ f s, nodeAt n p = some (.leaf f s)) :
     Inv true n (setOutAt n σ p o v).1 ∧ OutSync n (setOutAt n σ p o v).1 :=
   C09_links_sync_partial n _ hwf hnd (Reach.setOutLeaf p o v h hleaf)
+
+/-- the output of a UI node assigned directly (sending end of a pass-through link), at any depth: pushed to
+the macro output linked to it and further up; every link stays in place -/
+theorem C09_ui_output_sync (n : Node) (σ : St) (p : Path) (k : Nat) (v : Val) (hwf : WF n) (hnd : NoDupH n)
+    (h : Reach n σ) (hmac : ∃ a b r oh s, nodeAt n p = some (.mac a b r oh s)) :
+    Inv true n (setUiOutAt n σ p k v).1 ∧ OutSync n (setUiOutAt n σ p k v).1 :=
+  C09_links_sync_partial n _ hwf hnd (Reach.setUiOut p k v h hmac)
 
 /-- `Inv` read at one macro: the input of a parameter used many times or passed through equals the
 input of its UI node; the input of a single-use parameter equals the input of its only consumer
@@ -307,6 +331,32 @@ theorem C09_interface (args : List Arg) (body : List Node) (rets : List Ret) (oh
   · intro k hk; rw [build_root]; simp [hk]
   · intro o; rw [build_root]; simp
 
+/-- class inheritance (`class B(A)` overriding `graph_creator`, chains of any length, any table of
+classes): after ANY history of preview requests on any classes in any order, the output labels a class
+reports are those of ITS OWN defining function — the nearest `graph_creator` in its chain — unless labels
+were given explicitly in the class or in a class it extends (ordinary attribute inheritance). Current
+tree (3b85419). -/
+theorem C09_preview_own_function (cs : Preview.Classes) (fuel : Nat) (reqs : List Nat) :
+    Preview.runReqs (Preview.getRepaired cs fuel) Preview.Cache.empty reqs = reqs.map (Preview.spec cs fuel) :=
+  Preview.runReqs_repaired cs fuel _ (Preview.good_empty cs) reqs
+
+/-- class 1 extends class 0 and overrides the creator (function 11 returning two things instead of
+function 10 returning one); nothing is declared -/
+def exClasses : Preview.Classes :=
+  { parent := fun c => if c = 1 then some 0 else none,
+    ownFn := fun c => if c = 0 then some 10 else if c = 1 then some 11 else none,
+    declared := fun _ => none,
+    scrape := fun f => if f = 10 then [0] else if f = 11 then [1, 2] else [],
+    rootFn := 0 }
+
+/-- the pinned behaviour (KF-C09-3): once the parent was previewed, the child reports the parent's labels;
+asked in the other order both are right -/
+theorem C09_preview_pinned_witness :
+    Preview.runReqs (Preview.getPinned exClasses 2) Preview.Cache.empty [0, 1] = [[0], [0]] ∧
+    Preview.runReqs (Preview.getPinned exClasses 2) Preview.Cache.empty [1, 0] = [[1, 2], [0]] ∧
+    Preview.runReqs (Preview.getRepaired exClasses 2) Preview.Cache.empty [0, 1] = [[0], [1, 2]] := by
+  decide
+
 /-- a keyword argument at construction or a later assignment replaces the default by value -/
 theorem C09_input_by_value (n : Node) (σ : St) (k k' : Nat) (v : Val) :
     (setIn n σ k v).get .inp k' = if k' = k then v else σ.get .inp k' :=
@@ -390,6 +440,10 @@ example : ((setOutAt exTop (build exTop) [1, 0, 1] 0 (.c 9)).1.atPath [1, 0]).ge
     (setOutAt exTop (build exTop) [1, 0, 1] 0 (.c 9)).2 = none ∧
     (match nodeAt exTop [1, 0, 1] with | some (.leaf 1 _) => true | _ => false) = true := by decide
 
+/-- pass-through three levels down: `exMid` returns its parameter 1; assigning that UI node's output
+reaches `exMid`'s second output -/
+example : ((setUiOutAt exTop (build exTop) [1] 1 (.c 9)).1.atPath [1]).get .out 1 = .c 9 := by decide
+
 /-- the links of the three-level example right after construction: the top parameter is single-use
 (linked to `c0.a`), the middle macro keeps both UI nodes (fan-out, pass-through), the innermost keeps
 its UI node (two uses) -/
@@ -403,10 +457,13 @@ end PwVerif.C09
 #print axioms PwVerif.C09.C09_flatten
 #print axioms PwVerif.C09.C09_inline_any_schedule
 #print axioms PwVerif.C09.C09_run_eq_any_schedule
+#print axioms PwVerif.C09.C09_refused_run
+#print axioms PwVerif.C09.C09_hint_chain_is_C04
 #print axioms PwVerif.C09.C09_macro_eq_inlined
 #print axioms PwVerif.C09.C09_by_value_rerun
 #print axioms PwVerif.C09.C09_links_sync_partial
 #print axioms PwVerif.C09.C09_child_output_sync
+#print axioms PwVerif.C09.C09_ui_output_sync
 #print axioms PwVerif.C09.C09_links_read
 #print axioms PwVerif.C09.C09_setter_keeps_links
 #print axioms PwVerif.C09.C09_assignment_reaches_chain
@@ -418,6 +475,8 @@ end PwVerif.C09
 #print axioms PwVerif.C09.C09_dup_return_witness
 #print axioms PwVerif.C09.C09_isolated
 #print axioms PwVerif.C09.C09_interface
+#print axioms PwVerif.C09.C09_preview_own_function
+#print axioms PwVerif.C09.C09_preview_pinned_witness
 #print axioms PwVerif.C09.C09_input_by_value
 #print axioms PwVerif.C09.C09_unused_argument
 #print axioms PwVerif.C09.C09_hint_checked_only_when_single_use
